@@ -464,8 +464,7 @@ def gen_case(rng: random.Random) -> dict:
         name = f"c{k}"
         op = {"k": "channel", "name": name, "id": cid}
         if cid.endswith("local"):
-            if rng.random() < 0.8:
-                op["init"] = rng.choice(labels)
+            op["init"] = rng.choice(labels)     # (an untargeted local channel cannot be sampled at all)
         ops.append(op)
         chans.append((name, cid))
     # --- detuning map / SLM
@@ -501,6 +500,9 @@ def gen_case(rng: random.Random) -> dict:
         if r < 0.62:
             amp = _amp_spec(rng, grid)
             det = _det_spec(rng)
+            if dur < 2:                          # RampWaveform(1, …) is NaN (C16 / F6), not C05's business
+                amp = ["const", amp[1]] if amp[0] == "ramp" else amp
+                det = ["const", det[1]] if det[0] == "ramp" else det
             if physical:
                 amp = [amp[0]] + [(min(x, 6.0) if not isinstance(x, list) else [min(y, 6.0) for y in x]) for x in amp[1:]]
             op = {"k": "add", "ch": name, "dur": dur, "amp": amp, "det": det, "phase": rng.choice(PHASES),
@@ -514,8 +516,8 @@ def gen_case(rng: random.Random) -> dict:
             body.append({"k": "delay", "ch": name, "dur": dur})
         elif r < 0.87 and dmms:
             body.append({"k": "dmm", "ch": dmms[0], "dur": dur,
-                         "det": rng.choice([["const", -rng.choice([1.0, 3.5, 10.0])], ["ramp", -8.0, -0.5],
-                                            ["ramp", 0.0, -6.0]]),
+                         "det": rng.choice([["const", -rng.choice([1.0, 3.5, 10.0])]]
+                                           + ([["ramp", -8.0, -0.5], ["ramp", 0.0, -6.0]] if dur >= 2 else [])),
                          "protocol": rng.choice(["no-delay", "min-delay"])})
         elif r < 0.93 and len(chans) > 1:
             body.append({"k": "align", "chs": [c for c, _ in chans]})
@@ -525,6 +527,13 @@ def gen_case(rng: random.Random) -> dict:
                          "q": rng.sample(labels, rng.randrange(1, n + 1)), "basis": basis})
         else:
             body.append({"k": "delay", "ch": name, "dur": dur})
+    if mode == "xy" and want_slm:
+        # (an XY SLM mask + a global channel without any pulse makes to_nested_dict raise IndexError — the
+        #  emulator cannot be built; keep a few such programs, they are counted as `emulator-error`)
+        for name, cid in chans:
+            if not any(o["k"] == "add" and o["ch"] == name for o in body) and rng.random() < 0.85:
+                body.append({"k": "add", "ch": name, "dur": rng.randrange(2, 9), "amp": ["const", rng.choice(AMPS[1:])],
+                             "det": _det_spec(rng), "phase": rng.choice(PHASES), "protocol": "min-delay"})
     if slm_pending is not None:
         body.insert(rng.randrange(0, len(body) + 1), slm_pending)
     ops += body
@@ -561,3 +570,586 @@ def _first_failing(case, ops):
         except Exception:  # noqa: BLE001
             return k - 1
     return None
+
+
+# ----------------------------------------------------------------------------------------------
+# model side (pm_ham)
+# ----------------------------------------------------------------------------------------------
+def _fb(x: float) -> str:
+    return str(struct.unpack("<Q", struct.pack("<d", float(x)))[0])
+
+
+def _bf(s: str) -> float:
+    return struct.unpack("<d", struct.pack("<Q", int(s)))[0]
+
+
+def split_values(info: Rendered, t: int):
+    """The same contributions laid out like the samples dictionary: one global drive per basis (channels of
+    class G, unless an XY mask is on) and one local drive per (atom, basis).  Each drive is
+    (Omega, delta, cos phi, sin phi)."""
+    mask_on = bool(info.xy and info.mask and t < info.mask_end)
+    glob = {b: [] for b in BASES}
+    loc = {(i, b): [] for i in range(info.n) for b in BASES}
+    for c in info.contribs:
+        if not (c.ti <= t < c.tf):
+            continue
+        k = t - c.ti
+        if c.cls == "G" and not mask_on:
+            glob[c.basis].append((c.amp[k], c.det[k], c.phase))
+            continue
+        for i, w in enumerate(c.weights):
+            if w == 0.0 or (mask_on and i in info.mask):
+                continue
+            if c.cls == "D":
+                loc[(i, c.basis)].append((0.0, w * c.det[k], 0.0))
+            else:
+                loc[(i, c.basis)].append((c.amp[k], c.det[k], c.phase))
+
+    def merge(items):
+        if not items:
+            return (0.0, 0.0, 1.0, 0.0)
+        det = sum(x[1] for x in items)
+        active = [x for x in items if x[0] != 0.0]
+        if len(active) <= 1:
+            a, _, ph = active[0] if active else (0.0, 0.0, 0.0)
+            return (a, det, math.cos(ph), math.sin(ph))
+        D = sum(0.5 * a * complex(math.cos(ph), -math.sin(ph)) for a, _, ph in active)
+        m = abs(D)
+        if m == 0.0:
+            return (0.0, det, 1.0, 0.0)
+        return (2 * m, det, D.real / m, -D.imag / m)
+
+    return mask_on, {b: merge(v) for b, v in glob.items()}, {k: merge(v) for k, v in loc.items()}
+
+
+def ham_request(info: Rendered, t: int, out: str) -> str:
+    mask_on, glob, loc = split_values(info, t)
+    coef = info.c3 if info.xy else info.c6
+    field = info.field if info.xy else [0.0, 0.0, 0.0]
+    drv = lambda d4: ",".join(_fb(x) for x in d4)  # noqa: E731
+    return " ".join([
+        "ham", out, str(info.n), "".join(info.eigenbasis), "1" if info.xy else "0", "1" if mask_on else "0",
+        "[" + ",".join(str(i) for i in info.mask) + "]", _fb(coef),
+        "[" + ",".join(_fb(x) for x in field) + "]",
+        "[" + ";".join(",".join(_fb(x) for x in c) for c in info.coords) + "]",
+        "[" + ";".join(drv(glob[b]) for b in BASES) + "]",
+        "[" + ";".join(drv(loc[(i, b)]) for i in range(info.n) for b in BASES) + "]",
+    ])
+
+
+def parse_matrix(reply: str) -> np.ndarray:
+    parts = reply.split(" ")
+    if parts[0] != "ok":
+        raise InfraError(f"pm_ham: {reply[:200]}")
+    N = int(parts[1])
+    H = np.zeros((N, N), dtype=complex)
+    if len(parts) > 2 and parts[2]:
+        for item in parts[2].split(";"):
+            i, j, re, im = item.split(",")
+            H[int(i), int(j)] = complex(_bf(re), _bf(im))
+    return H
+
+
+class Model:
+    def __init__(self):
+        self.drv = common.Driver("pm_ham")
+        self.cache = {}
+        self.requests = 0
+
+    def ask(self, line):
+        r = self.cache.get(line)
+        if r is None:
+            r = self.drv.ask(line)
+            self.requests += 1
+            if len(self.cache) > 4000:
+                self.cache.clear()
+            self.cache[line] = r
+        return r
+
+    def matrix(self, info, t, out="code"):
+        return parse_matrix(self.ask(ham_request(info, t, out)))
+
+    def check_consts(self):
+        """Tie of the constants of the model (and of this harness) to the live code."""
+        from pulser.channels.base_channel import EIGENSTATES as E, STATES_RANK as SR
+
+        r = self.ask("consts")
+        want = ("ok rank=" + "".join(SR) + " gr=" + "".join(E["ground-rydberg"]) + ":g,r dig="
+                + "".join(E["digital"]) + ":h,g xy=" + "".join(E["XY"]) + ":d,u")
+        ok = (r == want and list(SR) == STATES_RANK and {k: list(v) for k, v in E.items()} == EIGENSTATES)
+        return ok, f"model: {r!r}  live: {want!r}"
+
+    def eigenbasis(self, used, xy):
+        code = "".join({"ground-rydberg": "g", "digital": "d", "XY": "x"}[b] for b in used) or "-"
+        r = self.ask(f"eig {code} {1 if xy else 0}")
+        if not r.startswith("ok "):
+            raise InfraError(f"pm_ham eig: {r}")
+        return list(r[3:])
+
+    def close(self):
+        self.drv.close()
+
+
+# ----------------------------------------------------------------------------------------------
+# comparison, monitor, classification
+# ----------------------------------------------------------------------------------------------
+RTOL = 1e-9
+
+
+def mismatches(A: np.ndarray, B: np.ndarray):
+    """Entries where A and B differ by more than rel 1e-9 (plus 1e-11 of the matrix scale, for the
+    rounding of U − delta on the diagonal and of the spline evaluation of the coefficients)."""
+    if A.shape != B.shape:
+        return [(-1, -1)]
+    scale = max(1.0, float(np.abs(B).max()), float(np.abs(A).max()))
+    tol = RTOL * np.maximum(np.abs(A), np.abs(B)) + 1e-11 * scale
+    bad = np.argwhere(~(np.abs(A - B) <= tol))          # NaN counts as a mismatch
+    return [tuple(int(x) for x in ij) for ij in bad]
+
+
+def entry_kind(info: Rendered, k: int, l: int):
+    """('diagonal'|'drive'|'exchange'|'other', atoms that differ)."""
+    d, n = info.d, info.n
+    sk = [(k // d ** (n - 1 - j)) % d for j in range(n)]
+    sl = [(l // d ** (n - 1 - j)) % d for j in range(n)]
+    diff = [j for j in range(n) if sk[j] != sl[j]]
+    kind = {0: "diagonal", 1: "drive", 2: "exchange"}.get(len(diff), "other")
+    return kind, diff, sk, sl
+
+
+def _phase_sum_explains(info: Rendered, t: int, k: int, l: int, value: complex) -> bool:
+    """Is the real entry (k, l) what one gets by ADDING the phases of the channels of one addressing class that
+    drive the same basis (F15)?  value must equal  Σ_class (Σ_c Ω_c(t)/2)·e^{∓i Σ_c ψ_c}  with ψ_c one of the
+    phases programmed on channel c (or 0)."""
+    kind, diff, sk, sl = entry_kind(info, k, l)
+    if kind != "drive":
+        return False
+    i = diff[0]
+    eb = info.eigenbasis
+    for basis in BASES:
+        a, b = AB[basis]
+        if a not in eb or b not in eb:
+            continue
+        ia, ib = eb.index(a), eb.index(b)
+        if (sk[i], sl[i]) == (ia, ib):
+            sign = -1.0
+        elif (sk[i], sl[i]) == (ib, ia):
+            sign = 1.0
+        else:
+            continue
+        mask_on = bool(info.xy and info.mask and t < info.mask_end)
+        if mask_on and i in info.mask:
+            return False
+        per_class = []
+        multi = False
+        for cls in ("G", "L"):
+            chans = collections.OrderedDict()
+            for c in info.contribs:
+                if c.basis == basis and c.cls == cls and c.weights[i] != 0.0:
+                    chans.setdefault(c.ch, []).append(c)
+            amp = 0.0
+            for cs in chans.values():
+                for c in cs:
+                    if c.ti <= t < c.tf:
+                        amp += c.amp[t - c.ti]
+            phase_sets = [sorted({0.0} | {c.phase for c in cs}) for cs in chans.values()]
+            if len(chans) >= 2 and any(c.phase % (2 * math.pi) != 0.0 for cs in chans.values() for c in cs):
+                multi = True
+            sums = {0.0}
+            for ps in phase_sets:
+                sums = {round(x + p, 12) for x in sums for p in ps}
+                if len(sums) > 4000:
+                    return False
+            per_class.append([0.5 * amp * complex(math.cos(s), sign * math.sin(s)) for s in sums])
+        if not multi:
+            return False
+        for vg in per_class[0]:
+            for vl in per_class[1]:
+                if abs(value - (vg + vl)) <= 1e-9 * max(1.0, abs(value)):
+                    return True
+    return False
+
+
+def analyse(info: Rendered, t: int, Hr: np.ndarray, Hd: np.ndarray):
+    """Monitor at one time: hermiticity of the real matrix and equality with the documented formula.
+    Returns a list of failures {clause, key, msg, entries}."""
+    fails = []
+    herm = mismatches(Hr, Hr.conj().T)
+    if herm:
+        fails.append(dict(clause="hermitian", key={"clause": "hermitian"},
+                          msg=f"t={t}: H(t) is not hermitian at entries {herm[:4]}"))
+    bad = mismatches(Hr, Hd)
+    if not bad:
+        return fails
+    if bad == [(-1, -1)]:
+        fails.append(dict(clause="dimension", key={"clause": "dimension"},
+                          msg=f"t={t}: dimension {Hr.shape} != {Hd.shape}"))
+        return fails
+    groups = collections.defaultdict(list)
+    Hoff = None
+    for (k, l) in bad:
+        kind = entry_kind(info, k, l)[0]
+        if kind == "drive" and _phase_sum_explains(info, t, k, l, Hr[k, l]):
+            groups[("drive", "same-basis-channels-phase-sum")].append((k, l))
+            continue
+        if kind == "exchange" and info.xy and info.mask and t == info.mask_end:
+            if Hoff is None:
+                Hoff = doc_hamiltonian(info, t, slm_off_by_one=True)
+            if abs(Hr[k, l] - Hoff[k, l]) <= RTOL * max(abs(Hr[k, l]), abs(Hoff[k, l])) + 1e-11:
+                groups[("exchange", "slm-mask-end-off-by-one")].append((k, l))
+                continue
+        groups[(kind, "unexplained")].append((k, l))
+    for (kind, cause), entries in groups.items():
+        k, l = entries[0]
+        fails.append(dict(
+            clause=kind, key={"clause": kind, "cause": cause}, entries=entries[:6],
+            msg=f"t={t}: {kind} entry ({k},{l}) real={Hr[k, l]:.12g} documented={Hd[k, l]:.12g} ({cause}; "
+                f"{len(entries)} entries)"))
+    return fails
+
+
+# findings carried by this module until they are moved to /verif/known_findings.jsonl (integration note)
+def local_findings():
+    out = []
+    f = common.CORPUS / PROP / "known_findings.jsonl"
+    if f.exists():
+        for line in f.read_text().splitlines():
+            line = line.strip()
+            if line and not line.startswith("#"):
+                out.append(json.loads(line))
+    return out
+
+
+def all_findings():
+    glob = common.load_known_findings()
+    ids = {f.get("id") for f in glob}
+    return glob + [f for f in local_findings() if f.get("id") not in ids]
+
+
+# ----------------------------------------------------------------------------------------------
+# running one case
+# ----------------------------------------------------------------------------------------------
+@dataclasses.dataclass
+class CaseResult:
+    status: str                     # ok | short | emulator-error
+    info: Rendered | None = None
+    ops: list | None = None
+    rejected: list | None = None
+    fails: list = dataclasses.field(default_factory=list)         # monitor failures (with 't')
+    model_div: list = dataclasses.field(default_factory=list)     # model vs real / model vs monitor
+    times: int = 0
+    nontrivial: bool = False
+    detail: str = ""
+
+
+def run_case(model: Model, case: dict, verbose: bool = False) -> CaseResult:
+    from pulser_simulation import QutipEmulator
+
+    seq, reg, device, ops, rejected = build_padded(case)
+    info = render(seq)
+    res = CaseResult("ok", info, ops, rejected)
+    if info.T < 4:
+        res.status = "short"
+        return res
+    try:
+        em = QutipEmulator.from_sequence(seq, sampling_rate=1.0)
+    except Exception as e:  # noqa: BLE001 — the emulator refuses the program: no Hamiltonian to speak about
+        res.status = "emulator-error"
+        res.detail = f"{type(e).__name__}: {str(e)[:80]}"
+        return res
+    # documented state ordering
+    real_eb = list(em._hamiltonian.eigenbasis)
+    basis_vecs = {s: int(np.argmax(np.abs(v.full()))) for s, v in em.basis.items()}
+    model_eb = model.eigenbasis(info.used_bases, info.xy)
+    if not (real_eb == info.eigenbasis == model_eb and all(basis_vecs[s] == i for i, s in enumerate(real_eb))
+            and em.dim == len(real_eb)):
+        res.fails.append(dict(t=0, clause="state-order", key={"clause": "state-order"},
+                              msg=f"eigenbasis real={real_eb} basis vectors={basis_vecs} documented={info.eigenbasis} "
+                                  f"model={model_eb} (used bases {info.used_bases}, basis_name {em.basis_name})"))
+        return res
+    for t in range(info.T + 1):
+        Hr = np.asarray(em.get_hamiltonian(t).full())
+        Hd = doc_hamiltonian(info, t)
+        Hm = model.matrix(info, t, "code")
+        res.times += 1
+        if not res.nontrivial and np.abs(Hr - np.diag(np.diag(Hr))).max() > 0:
+            res.nontrivial = True
+        fs = analyse(info, t, Hr, Hd)
+        for f in fs:
+            f["t"] = t
+        res.fails += fs
+        md = mismatches(Hm, Hd)
+        if md:
+            res.model_div.append(dict(t=t, what="model(code) vs numpy formula", entries=md[:4]))
+        if (t % 7 == 0) or verbose:
+            Hm2 = model.matrix(info, t, "doc")
+            md2 = mismatches(Hm2, Hm)
+            if md2:
+                res.model_div.append(dict(t=t, what="model(doc) vs model(code)", entries=md2[:4]))
+        if not fs:
+            mr = mismatches(Hm, Hr)
+            if mr:
+                res.model_div.append(dict(t=t, what="model(code) vs real", entries=mr[:4]))
+        if verbose:
+            print(f"t={t:3d} real-vs-doc {'OK ' if not fs else 'FAIL'} model-vs-doc {'OK' if not md else 'FAIL'}"
+                  + "".join("\n      " + f["msg"] for f in fs))
+    return res
+
+
+def features(case, info: Rendered | None):
+    fs = []
+    ks = [o["k"] for o in case["ops"]]
+    if "detmap" in ks:
+        fs.append("dmm")
+    if "slm" in ks:
+        fs.append("slm")
+    if "phase_shift" in ks:
+        fs.append("phase_shift")
+    if any(o.get("protocol") == "no-delay" for o in case["ops"]):
+        fs.append("no-delay")
+    if case["reg"].get("dim") == 3:
+        fs.append("3D")
+    if info is not None:
+        per = collections.Counter((c.basis, c.cls) for c in {(c.ch, c.basis, c.cls): c for c in info.contribs}.values())
+        if any(v >= 2 for (b, cls), v in per.items() if cls != "D"):
+            fs.append("multi-channel-same-basis-same-addressing")
+        bases = collections.Counter(b for (b, cls) in per if cls != "D")
+        if any(cls == "L" for _, cls in per):
+            fs.append("local")
+        if any(cls == "G" for _, cls in per):
+            fs.append("global")
+        if len({(b, cls) for (b, cls) in per if cls != "D"}) > len(bases):
+            fs.append("global+local-same-basis")
+    return fs
+
+
+def shrink(model: Model, case: dict, pred) -> dict:
+    """Greedy removal of ops (keeps declarations needed by later ops because a failing build rejects the candidate)."""
+    best = case
+    changed = True
+    while changed:
+        changed = False
+        for a in range(len(best["reg"]["atoms"]) - 1, -1, -1):       # drop an atom nothing refers to
+            if len(best["reg"]["atoms"]) < 2:
+                break
+            cand = {**best, "reg": {**best["reg"], "atoms": best["reg"]["atoms"][:a] + best["reg"]["atoms"][a + 1:]}}
+            try:
+                build(cand)
+                r = run_case(model, cand)
+            except Exception:  # noqa: BLE001
+                continue
+            if r.status == "ok" and pred(r):
+                best = cand
+                changed = True
+                break
+        if changed:
+            continue
+        for k in range(len(best["ops"]) - 1, -1, -1):
+            cand = {**best, "ops": best["ops"][:k] + best["ops"][k + 1:]}
+            try:
+                seq, *_ = build(cand)
+                r = run_case(model, cand)
+            except Exception:  # noqa: BLE001
+                continue
+            if r.status == "ok" and pred(r):
+                best = cand
+                changed = True
+                break
+    return best
+
+
+# ----------------------------------------------------------------------------------------------
+# check / replay
+# ----------------------------------------------------------------------------------------------
+def lean_obligations():
+    ok, out = common.lake_build(LEAN_TARGETS)
+    if not ok:
+        raise InfraError("lake build failed:\n" + out[-3000:])
+    thms = common.property_theorems(PROP)
+    bad_tokens = [h for h in common.lean_forbidden_tokens()
+                  if any(x in h for x in ("Hamiltonian.lean", "C05.lean", "HamMain.lean"))]
+    if bad_tokens:
+        raise InfraError("forbidden tokens in Lean sources: " + "; ".join(bad_tokens[:5]))
+    axioms = common.audit_axioms(f"Properties.{PROP}", thms) if thms else {}
+    offending = {t: axioms.get(t) for t in thms
+                 if axioms.get(t) is None or not set(axioms[t]) <= common.ALLOWED_AXIOMS}
+    if offending:
+        raise InfraError(f"axiom audit failed: {offending}")
+    return thms, axioms
+
+
+def corpus_cases():
+    d = common.CORPUS / PROP
+    out = []
+    if d.exists():
+        for f in sorted(d.glob("*.json")):
+            item = json.loads(f.read_text())
+            out.append((f.name, item["case"]))
+    return out
+
+
+def check(tier: str, seed: int) -> int:
+    timer = Timer()
+    thms, axioms = lean_obligations()
+    model = Model()
+    findings = all_findings()
+    rng = random.Random(f"{PROP}-{seed}")
+    hist = {k: collections.Counter() for k in
+            ("mode", "device", "atoms", "eigenbasis", "dim", "feature", "status", "rejected_op", "emulator_error",
+             "level", "ops")}
+    violations, known_hits, model_divs, samples = [], collections.Counter(), [], []
+    distinct, nontrivial = set(), set()
+    evaluations = 0
+    seen_keys = set()
+
+    ok, detail = model.check_consts()
+    if not ok:
+        violations.append(dict(property=PROP, kind="tie", broken="STATES_RANK / EIGENSTATES of the live code differ "
+                               "from the constants of PulserModel/Hamiltonian.lean: " + detail,
+                               no_failing_input_found=True))
+
+    def handle(case, origin):
+        nonlocal evaluations
+        r = run_case(model, case)
+        canon = json.dumps(case, sort_keys=True)
+        hist["status"][r.status] += 1
+        hist["mode"][case.get("mode", "?")] += 1
+        hist["device"][case["device"]["base"]] += 1
+        for k, e in (r.rejected or []):
+            hist["rejected_op"][f"{k}:{e}"] += 1
+        if r.status == "emulator-error":
+            hist["emulator_error"][r.detail] += 1
+        if r.status != "ok":
+            return
+        info = r.info
+        evaluations += r.times
+        distinct.add(canon)
+        if r.nontrivial:
+            nontrivial.add(canon)
+        hist["atoms"][info.n] += 1
+        hist["eigenbasis"]["".join(info.eigenbasis)] += 1
+        hist["dim"][info.d ** info.n] += 1
+        hist["level"][info.level] += 1
+        for o in r.ops:
+            hist["ops"][o["k"]] += 1
+        for f in features({**case, "ops": r.ops}, info):
+            hist["feature"][f] += 1
+        if len(samples) < 3 and info.n >= 2 and len(r.ops) >= 5:
+            samples.append(dict(origin=origin, case={**case, "ops": r.ops}, duration=info.T,
+                                eigenbasis=info.eigenbasis))
+        for f in r.fails:
+            kf = match_known(PROP, f["key"], findings)
+            if kf is not None:
+                known_hits[kf["id"]] += 1
+                continue
+            sig = json.dumps(f["key"], sort_keys=True)
+            if sig in seen_keys:
+                continue
+            seen_keys.add(sig)
+            key = f["key"]
+            small = shrink(model, {**case, "ops": r.ops},
+                           lambda rr, key=key: any(ff["key"] == key for ff in rr.fails))
+            violations.append(dict(property=PROP, kind="monitor", clause=f["clause"], key=key, message=f["msg"],
+                                   t=f["t"], case=small))
+        if r.model_div:
+            model_divs.append(dict(case={**case, "ops": r.ops}, divergences=r.model_div[:5]))
+
+    for name, case in corpus_cases():
+        handle(case, f"corpus/{name}")
+    n = N_CASES[tier]
+    for _ in range(n):
+        handle(gen_case(rng), "generated")
+        if violations and tier == "quick":
+            break
+    if model_divs and not [v for v in violations if v.get("kind") == "monitor"]:
+        # the tie between the model and the implementation is broken although the monitor saw nothing: search on
+        for _ in range(200 if tier == "quick" else 2000):
+            handle(gen_case(rng), "search")
+            if [v for v in violations if v.get("kind") == "monitor"]:
+                break
+        if not [v for v in violations if v.get("kind") == "monitor"]:
+            violations.append(dict(property=PROP, kind="correspondence",
+                                   broken="lean/PulserModel/Hamiltonian.lean (pm_ham) disagrees with the numpy formula / "
+                                          "the real matrix without a monitor failure",
+                                   theorems=thms, **model_divs[0], no_failing_input_found=True))
+    requests = model.requests
+    model.close()
+    ev = dict(
+        property_id=PROP, tier=tier, seed=seed, level="other",
+        coverage=dict(
+            explanation=(
+                "PARTIAL. Proved in Lean 4 (Properties/C05.lean, over any commutative ring with an involutive "
+                "conjugation, any number of atoms and levels): the Hamiltonian assembled the way "
+                "_construct_hamiltonian does it (Kronecker products in register order, coefficient Ω/2·e^{-iφ} on σ_ab "
+                "and −δ/2 on σ_bb, global operators as sums over atoms, U/2·n_i n_j resp. U·σ_ud σ_du over pairs with "
+                "masked atoms skipped, then + dagger) equals the documented formula entry by entry "
+                "(H_code_eq_H_doc), is hermitian (H_code_hermitian, H_doc_hermitian), tensor order "
+                "(tensor_index, tensor_entries, index_digits), n_i n_j diagonal / exchange only swaps "
+                "(vdw_entries, vdw_diagonal, xy_exchange_entries, xy_exchange_only_swaps, masked_pair_decoupled), "
+                "state ordering (eigenbasis_order, eigenbasis_nodup). NOT proved, validated numerically on this run: "
+                "that the float64 QuTiP matrix equals the formula — the model (pm_ham, pairs of Float) and an "
+                "independent numpy evaluation of the formula are compared with get_hamiltonian(t).full() at every "
+                "integer t of generated programs (rel. tol 1e-9), from per-atom values rendered independently from "
+                "seq._schedule."),
+            obligations=len(thms), discharged=len(thms),
+            checker_cmd="cd lean && lake build " + " ".join(LEAN_TARGETS) + "  (+ #print axioms per theorem, "
+                        "harness/common.py audit_axioms)",
+            trusted_base=TRUSTED_BASE, theorems=thms, axioms=axioms,
+            evaluations=evaluations, distinct_nontrivial=len(nontrivial),
+            programs=len(distinct), traces_validated_against_impl=len(distinct),
+            rule="programs drawn by gen_case (device × mode × register × channel set × op list) + corpus/C05; "
+                 "one evaluation = one (program, integer time) at which real, model and numpy matrices are compared; "
+                 "distinct = distinct program JSON; non-trivial = the real Hamiltonian has a non-zero off-diagonal "
+                 "entry at some time (a drive or an exchange term is present)",
+            samples=samples, uncovered_clauses=UNCOVERED,
+            histograms={k: {str(a): b for a, b in sorted(v.items(), key=lambda kv: str(kv[0]))} for k, v in hist.items()},
+            model_requests=requests, model_divergences=len(model_divs),
+            known_findings_hit=dict(known_hits), repo_fingerprint=common.repo_fingerprint(),
+            tolerance="|a-b| <= 1e-9*max(|a|,|b|) + 1e-11*max(1,|H|_max) per entry",
+        ),
+        assumptions=TRUSTED_BASE, wall_s=timer.s(), violations=len(violations),
+    )
+    write_evidence(PROP, ev)
+    for kid, cnt in sorted(known_hits.items()):
+        kf = next(f for f in findings if f["id"] == kid)
+        print(f"KNOWN-FINDING: property={PROP} {kf['what']} (hit at {cnt} sample times)")
+    if violations:
+        for v in violations:
+            p = write_replay(PROP, v)
+            tail = " no-failing-input-found" if v.get("no_failing_input_found") else ""
+            print(f"VIOLATION property={PROP} replay={p}{tail}")
+        return 1
+    print(f"OK property={PROP} tier={tier} theorems={len(thms)}/{len(thms)} programs={len(distinct)} "
+          f"matrices={evaluations} nontrivial={len(nontrivial)} wall={timer.s()}s")
+    return 0
+
+
+def replay(path: str) -> int:
+    item = json.loads(Path(path).read_text())
+    case = item.get("case")
+    if case is None:
+        print(f"replay: {item.get('broken', 'no case in this file')}")
+        print(f"VIOLATION property={PROP} replay={path}")
+        return 1
+    ok, out = common.lake_build(["pm_ham"])
+    if not ok:
+        raise InfraError("lake build pm_ham failed:\n" + out[-2000:])
+    model = Model()
+    print(json.dumps(case)[:2000])
+    r = run_case(model, case, verbose=True)
+    model.close()
+    print(f"status={r.status} {r.detail}")
+    findings = all_findings()
+    bad = False
+    for f in r.fails:
+        kf = match_known(PROP, f["key"], findings)
+        print(("known " + kf["id"] + ": " if kf else "FAIL: ") + f["msg"])
+        bad = bad or kf is None
+    for d in r.model_div:
+        print("MODEL DIVERGENCE:", d)
+        bad = True
+    if bad:
+        print(f"VIOLATION property={PROP} replay={path}")
+        return 1
+    print("replay: property holds on this case (up to known findings)")
+    return 0
